@@ -169,6 +169,28 @@ def as_oracle(c, fam):
 RICH_SOLS = [(ADDR_A, ADDR_B, [[1, 2, 3], [], [7]], [([1], [2])]), (ADDR_C, ADDR_A, [[9]], [])]
 
 
+def pex_race_cases(breadths=(2, 8), slot_words=2000, slots=10):
+    """Compute children that all execute PredicateExists as their first access op, on a solution set whose pre-image takes
+    a while to hash: the per-VM cache of the hashes is initialised while several children are running"""
+    import hashlib
+    big = [(ADDR_A, ADDR_B, [[(7 * i + j) % 1000 for j in range(slot_words)] for i in range(slots)], []),
+           (ADDR_C, ADDR_A, [[i] * slot_words for i in range(slots)], [])]
+    def pre(s_):
+        ws = []
+        for slot in s_[2]:
+            ws += [len(slot)] + list(slot)
+        ws += struct_words(s_[0]) + struct_words(s_[1])
+        return b"".join((w & ((1 << 64) - 1)).to_bytes(8, "big") for w in ws)
+    h = struct_words(hashlib.sha256(pre(big[1])).digest())
+    miss = struct_words(hashlib.sha256(b"nope").digest())
+    out = []
+    for b in breadths:
+        for hw in (h, miss):
+            body = [op("POP")] + [P(w) for w in hw] + [op("PEX"), P(1), op("ALOC"), op("STO"), op("COME")]
+            out.append(case([P(b), op("COM")] + body, stack=[], sols=big, limit=U64_MAX))
+    return out
+
+
 def std_entries():
     """state table: distinct answers for pre/post, own/extern contract, a few keys and counts"""
     es = []
@@ -515,6 +537,16 @@ def c09_cases(rng, tier):
     cases.append(case(filler + [P(3), P(1), op("JMPIF"), P(7), P(8), P(9)], limit=U64_MAX))
     cases.append(case(filler + [P(1), op("HLTIF"), P(9)], limit=U64_MAX))
     cases.append(case([P(65541), P(1), op("JMPIF")] + filler + [P(9)], limit=U64_MAX))
+    # Compute inside a repeat loop: the children continue the parent's loop state (counter readable, RepeatEnd of the enclosing
+    # loop reachable), in both counting directions
+    for cnt, up in ((1, 1), (2, 0), (3, 1)):
+        for b in (1, 2, 3):
+            cases.append(case([P(cnt), P(up), op("REP"), P(b), op("COM"), op("REPC"), P(1), op("ALOC"), op("STO"), op("COME"), op("REPE")],
+                              stack=[7], sols=RICH_SOLS, limit=100000))
+            cases.append(case([P(cnt), P(up), op("REP"), P(b), op("COM"), op("POP"), op("REPE"), op("COME"), op("REPE")],
+                              stack=[7], sols=RICH_SOLS, limit=100000))
+            cases.append(case([P(cnt), P(up), op("REP"), op("REPC"), P(b), op("COM"), op("POP"), op("REPC"), op("REPC"), op("ADD"), P(1), op("ALOC"), op("STO"),
+                               op("COME"), op("POP"), op("REPE")], stack=[7], sols=RICH_SOLS, limit=100000))
     # counts that would be small if narrowed, under a gas limit that only the narrowed loop could meet
     for n in (258, 65538, (1 << 32) + 2):
         for up in (0, 1):
@@ -604,6 +636,7 @@ def c10_cases(rng, tier):
         for body in (by_jump, by_halt, counted):
             for cnt, up in ((1, 1), (2, 0)):
                 cases.append(case([P(cnt), P(up), op("REP"), P(b), op("COM")] + body + [op("REPE")], stack=[7], sols=RICH_SOLS, limit=U64_MAX))
+    cases += pex_race_cases()
     # larger breadths
     for b in (50, 1000, 4097):
         cases.append(case([P(b), op("COM"), P(1), op("ALOC"), op("STO"), op("COME")], sols=RICH_SOLS, limit=U64_MAX, maxb=5000))
@@ -711,6 +744,7 @@ def c12_cases(rng, tier):
         cases.append(case([op("PEX")], stack=[4] + struct_words(h)[::-1], sols=sols))
         cases.append(case([op("PEX")], stack=[4] + struct_words(h), sols=[(ADDR_A, ADDR_B, [[]], []), (ADDR_A, ADDR_B, [], [])]))
     cases.append(case([op("PEX")], stack=[1, 2, 3], sols=sols))
+    cases += pex_race_cases()
     # --- Sha256: all byte lengths 0..200 (every residue mod 8), wrong word counts, negative length
     for ln in range(0, 201 if tier == "thorough" else 72):
         data = bytes((7 * i + ln) & 0xFF for i in range(ln))
